@@ -1,15 +1,13 @@
 /-
-C09 — the repaired defect C09-placemarker (`fix:` 5a15c0f in /repo), as a record, and what `read_macro_args` hands to `subst`.
+C09 — the repaired defect C09-placemarker (`fix:` 5a15c0f in /repo), as a record.
 
-1. `substLoopOld` is `substLoop` of Model/PP.lean as it was before the repair: in the arm "parameter with an EMPTY argument
+`substLoopOld` is `substLoop` of Model/PP.lean as it was before the repair: in the arm "parameter with an EMPTY argument
    followed by `##`" the right operand of that `##` was copied at once — also when it was an empty argument itself and
    another `##` followed, so that the next `##` found the output as it was before the chain: nothing at all
    ("'##' cannot appear at start of macro expansion", `t(,,)`) or an unrelated earlier token (`a x##y##z` with `(,,3)` gave
    `a3`).  C11 6.10.3.3p2-3: an empty argument next to `##` is a placemarker, placemarker ## placemarker = placemarker,
    which is the left operand of the following `##`.  The present code moves over the whole run of empty operands
    (`skipEmptyOperands`).  Witnesses: Findings/C09.lean.
-2. `readMacroArgs_fresh`: every argument `read_macro_args` returns has an empty cache `arg->expanded` — the hypothesis
-   `FreshArgs` of `C09_subst_spec_partial` holds for every invocation.
 -/
 import ChibiVerif.Model.PP
 import ChibiVerif.Lemmas.PPSubst
@@ -98,69 +96,5 @@ def substLoopOld (lx : String → LexOne) (pp : PreExpand) (isObj : Bool) :
 def substOld (lx : String → LexOne) (pp : PreExpand) (st : St) (body : List Tok) (args : List MacroArg) (isObj : Bool) :
     Except Err (List Tok × St) :=
   (substLoopOld lx pp isObj (body.length + 1) st args body []).map fun (out, _, st') => (out, st')
-
-/-! ## the arguments of an invocation are fresh -/
-
-theorem readNamedArgs_fresh : ∀ (ps : List String) (first : Bool) (ts : List Tok) (args : List MacroArg) (r : List Tok),
-    readNamedArgs ps first ts = .ok (args, r) → ∀ a ∈ args, a.expanded = none := by
-  intro ps
-  induction ps with
-  | nil =>
-    intro first ts args r h
-    simp only [readNamedArgs, Except.ok.injEq, Prod.mk.injEq] at h
-    obtain ⟨rfl, rfl⟩ := h
-    simp
-  | cons p ps ih =>
-    intro first ts args r h
-    unfold readNamedArgs at h
-    split at h
-    · simp at h
-    · split at h
-      · simp at h
-      · simp only [Except.map] at h
-        split at h
-        · simp at h
-        · rename_i v hrec
-          obtain ⟨as, r'⟩ := v
-          simp only [Except.ok.injEq, Prod.mk.injEq] at h
-          obtain ⟨rfl, rfl⟩ := h
-          intro x hx
-          simp only [List.mem_cons] at hx
-          rcases hx with rfl | hx
-          · rfl
-          · exact ih _ _ _ _ hrec x hx
-
-/-- what `read_macro_args` returns has never been pre-expanded: `arg->expanded == NULL` for every argument -/
-theorem readMacroArgs_fresh (ps : List String) (va : Option String) (ts : List Tok)
-    (args : List MacroArg) (rp : Tok) (rest : List Tok)
-    (h : readMacroArgs ps va ts = .ok (args, rp, rest)) : FreshArgs args := by
-  unfold readMacroArgs at h
-  split at h
-  · simp at h
-  · rename_i nargs r hnamed
-    have hn := readNamedArgs_fresh _ _ _ _ _ hnamed
-    cases va with
-    | none =>
-      obtain ⟨rfl, _, _⟩ := fin_ok h
-      exact hn
-    | some vn =>
-      simp only at h
-      split at h
-      · obtain ⟨rfl, _, _⟩ := fin_ok h
-        intro a ha
-        simp only [List.mem_append, List.mem_singleton] at ha
-        rcases ha with ha | rfl
-        · exact hn a ha
-        · rfl
-      · split at h
-        · simp at h
-        · split at h
-          · simp at h
-          · obtain ⟨rfl, _, _⟩ := fin_ok h
-            intro a ha
-            simp only [List.mem_append, List.mem_singleton] at ha
-            rcases ha with ha | rfl
-            · exact hn a ha
-            · rfl
 
 end ChibiVerif.PP
